@@ -131,6 +131,10 @@ type c03Cfg struct {
 	// ExpiredCtx: Shutdown is called with a context that is already done (the caller's shutdown deadline has passed): what
 	// Shutdown guarantees when it returns does not depend on it
 	ExpiredCtx bool `json:"shutdown_context_already_done,omitempty"`
+	// Timeout: a per-attempt timeout of 2 s (virtual time, the deadline is a timer of the execution) and two more backend
+	// answers: "slow" - the call takes 3 s and ignores its context; "slow-ctx" - the call takes 3 s unless its context
+	// ends first, then it returns the context's error (a transient failure)
+	Timeout bool `json:"attempt_timeout,omitempty"`
 }
 
 type c03Obs struct {
@@ -158,7 +162,8 @@ func c03Body(cf *c03Cfg, o *c03Obs) func() {
 	return func() {
 		*o = c03Obs{attempts: map[int]int{}, failed: map[int]bool{}, transient: map[int]int{}, finalOK: map[int]bool{}, acceptedBefore: map[int]bool{}, acceptedAll: map[int]bool{}}
 		inFlight := 0
-		backend := func(_ context.Context, r request.Request) error {
+		first := map[int]time.Time{}
+		backend := func(bctx context.Context, r request.Request) error {
 			if vs.Killed() {
 				return nil
 			}
@@ -170,14 +175,40 @@ func c03Body(cf *c03Cfg, o *c03Obs) func() {
 			ids := append([]int(nil), r.(*c03Req).ids...)
 			for _, id := range ids {
 				o.attempts[id]++
+				if d, ok := bctx.Deadline(); ok && cf.Timeout {
+					if _, seen := first[id]; !seen {
+						// the attempt's deadline was set 2 s after the retry sender took the request (no scheduling point in between)
+						first[id] = d.Add(-2 * time.Second)
+					}
+				}
 			}
-			var c int // ok, transient, permanent
+			var c int // ok, transient, permanent (+ slow, slow-ctx with an attempt timeout)
+			answers := 3
+			if cf.Timeout {
+				answers = 5
+			}
 			if cf.FreeBackend {
-				c = vs.ChooseFree(3)
+				c = vs.ChooseFree(answers)
 			} else {
-				c = vs.Choose(3)
+				c = vs.Choose(answers)
 			}
 			vs.Point() // the call takes a while: others may run
+			switch c {
+			case 3:
+				vs.Sleep(3 * time.Second)
+				c = 0
+			case 4:
+				c = 0
+				if vs.Select(false, vs.CaseRecv(bctx.Done()), vs.CaseRecv(vs.After(3*time.Second))) == 0 {
+					if bctx.Err() == nil {
+						panic("harness: Done() closed with nil Err()")
+					}
+					c = 1
+				}
+			}
+			if vs.Killed() {
+				return nil
+			}
 			inFlight--
 			switch c {
 			case 1:
@@ -187,6 +218,10 @@ func c03Body(cf *c03Cfg, o *c03Obs) func() {
 					// without retry a failed export is final; with retry (1s, x1, max elapsed 3s) the third transient
 					// failure may exhaust the budget, after which the outcome is final as well
 					if !cf.Retry || o.transient[id] >= 3 {
+						o.finalOK[id] = true
+					}
+					// with slow attempts the budget is a matter of (virtual) time: the next retry would begin 1 s from now
+					if f, ok := first[id]; ok && f.Add(3*time.Second).Before(vs.Now().Add(time.Second)) {
 						o.finalOK[id] = true
 					}
 				}
@@ -216,7 +251,11 @@ func c03Body(cf *c03Cfg, o *c03Obs) func() {
 				qc.Batch.MinSize, qc.Batch.MaxSize = int64(cf.BatchMin), int64(cf.BatchMax)
 			}
 		}
-		opts := []Option{WithTimeout(TimeoutConfig{}), WithQueueBatch(qc, QueueBatchSettings[request.Request]{Encoding: c03Enc{}, Sizers: map[request.SizerType]request.Sizer[request.Request]{
+		tc := TimeoutConfig{}
+		if cf.Timeout {
+			tc.Timeout = 2 * time.Second
+		}
+		opts := []Option{WithTimeout(tc), WithQueueBatch(qc, QueueBatchSettings[request.Request]{Encoding: c03Enc{}, Sizers: map[request.SizerType]request.Sizer[request.Request]{
 			request.SizerTypeRequests: request.RequestsSizer[request.Request]{}, request.SizerTypeItems: request.NewItemsSizer()}})}
 		if cf.Retry {
 			opts = append(opts, WithRetry(configretry.BackOffConfig{Enabled: true, InitialInterval: time.Second, Multiplier: 1, MaxInterval: time.Second, MaxElapsedTime: 3 * time.Second}))
@@ -430,6 +469,9 @@ func c03Configs(quick bool) []*c03Cfg {
 		if c.ExpiredCtx {
 			c.Name += ",shutdown-context-done"
 		}
+		if c.Timeout {
+			c.Name += ",attempt-timeout"
+		}
 		if c.FreeBackend {
 			c.Name += fmt.Sprintf(",free-backend,batch=%d..%d", c.BatchMin, c.BatchMax)
 		}
@@ -463,6 +505,12 @@ func c03Configs(quick bool) []*c03Cfg {
 	// shutdown; every backend answer pattern is enumerated
 	add(c03Cfg{Persistent: true, Batch: true, Retry: true, Consumers: 1, Producers: [][]int{{3}}, Concurrent: false, FreeBackend: true, BatchMin: 2, BatchMax: 2})
 	add(c03Cfg{Batch: true, Retry: true, Consumers: 1, Producers: [][]int{{3}}, Concurrent: false, FreeBackend: true, BatchMin: 2, BatchMax: 2})
+	// per-attempt timeout with a backend that is slow (the statement's third backend behaviour): Shutdown may only return
+	// when the slow call has returned too, whether or not it honours its deadline
+	add(c03Cfg{Timeout: true, Retry: true, Consumers: 1, Producers: [][]int{{1}, {2}}, Concurrent: true})
+	add(c03Cfg{Timeout: true, Batch: true, Consumers: 1, Producers: [][]int{{1, 2}}, Concurrent: false})
+	add(c03Cfg{Timeout: true, Consumers: 1, Producers: [][]int{{1}}, Concurrent: false, FreeBackend: true})
+	add(c03Cfg{Timeout: true, Persistent: true, Retry: true, Consumers: 1, Producers: [][]int{{1}}, Concurrent: true, FreeBackend: true})
 	return l
 }
 
